@@ -161,9 +161,23 @@ struct Dom
             for (int p : live)
                 for (int a : live)
                     if (m.c[a].parent != p) ops.push_back(Op{"create_sub_after", {p, a}, {name}});
+            // a positioned creation whose name is already taken in the target list (the name check of the _after forms is code
+            // of its own): a refusal is the expected answer and may not leave anything behind; if accepted, the listing invariants apply
+            {
+                auto roots = kids_of(-1);
+                if (!roots.empty()) ops.push_back(Op{"create_root_after", {roots.front()}, {m.c[roots.back()].name}});
+                for (int p : live)
+                {
+                    auto ks = kids_of(p);
+                    if (!ks.empty()) ops.push_back(Op{"create_sub_after", {p, ks.front()}, {m.c[ks.back()].name}});
+                }
+            }
         }
         for (int c : live)
         {
+            // renaming to the name of a sibling (refusal expected)
+            for (int sib : kids_of(m.c[c].parent))
+                if (sib != c) { ops.push_back(Op{"set_name", {c}, {m.c[sib].name}}); break; }
             ops.push_back(Op{"set_name", {c}, {"r" + std::to_string(m.created)}});
             ops.push_back(Op{"remove_crate", {c}, {}});
             std::vector<int> parents = live;
@@ -196,7 +210,18 @@ struct Dom
         bool foreign_anchor = false;
         if (op.f == "create_root_after") foreign_anchor = m.c[op.i[0]].parent != -1;
         if (op.f == "create_sub_after") foreign_anchor = m.c[op.i[1]].parent != (int)op.i[0];
-        if (!r.ok && !foreign_anchor && op.f != "pl_update_dup") viol("rejected_valid_operation", "operation was rejected: " + r.ex_type + ": " + r.what);
+        // a name that a live crate of the target list already carries: the statement leaves acceptance open
+        bool taken_name = false;
+        if (op.f == "create_root_after" || op.f == "create_sub_after" || op.f == "set_name")
+        {
+            int p = op.f == "create_root_after" ? -1 : op.f == "create_sub_after" ? (int)op.i[0] : m.c[op.i[0]].parent;
+            auto it = m.kids.find(p);
+            if (it != m.kids.end())
+                for (int k : it->second)
+                    if (m.c[k].live && m.c[k].name == op.s[0] && !(op.f == "set_name" && k == (int)op.i[0])) taken_name = true;
+            if (checking && taken_name) a.count(std::string("open_choice.") + op.f + ".taken_name." + (r.ok ? "accepted" : "rejected"));
+        }
+        if (!r.ok && !foreign_anchor && !taken_name && op.f != "pl_update_dup") viol("rejected_valid_operation", "operation was rejected: " + r.ex_type + ": " + r.what);
         if (op.f == "pl_update_dup" && r.ok) viol("duplicate_title_stored", "a playlist row was moved into a list that already holds its title (the schema's UNIQUE (title, parentListId) should refuse it)");
         // listing of a parent in the implementation, as crate indices (-2 for an unknown id)
         auto impl_list = [&](int p) {
